@@ -8,14 +8,14 @@ variable {α : Type}
 /-! ### the conditional write -/
 
 /-- The write condition of each backend, as a proposition about the store and the held token. -/
-def Enabled (strict : Bool) (st : Store α) (k : Key) (idx : Nat) : Prop :=
+def Enabled (st : Store α) (k : Key) (idx : Nat) : Prop :=
   match st.kind with
   | .consul => ∀ e, st.ent k = some e → e.tok = idx
   | .etcd => st.ver k = idx
-  | .ml => (strict = false ∧ idx = 0) ∨ st.ver k = idx
+  | .ml => st.ver k = idx
 
-theorem condWrite_not_wrote {strict : Bool} {merge : Option α → α → Option α} {st st' : Store α} {k : Key} {idx : Nat}
-    {out : α} {oc : Outcome} (h : condWrite strict merge st k idx out = (st', oc)) (hoc : oc ≠ .wrote) : st' = st := by
+theorem condWrite_not_wrote {merge : Option α → α → Option α} {st st' : Store α} {k : Key} {idx : Nat}
+    {out : α} {oc : Outcome} (h : condWrite merge st k idx out = (st', oc)) (hoc : oc ≠ .wrote) : st' = st := by
   unfold condWrite at h
   split at h
   · split at h
@@ -34,9 +34,9 @@ theorem condWrite_not_wrote {strict : Bool} {merge : Option α → α → Option
 
 /-- A successful conditional write: the condition held, exactly one entry changed; its token is
 `current+1` (consul) or `old version+1` (etcd, memberlist). -/
-theorem condWrite_wrote {strict : Bool} {merge : Option α → α → Option α} {st st' : Store α} {k : Key} {idx : Nat}
-    {out : α} (h : condWrite strict merge st k idx out = (st', .wrote)) :
-    Enabled strict st k idx ∧ ∃ v t c', st' = ⟨st.kind, c', fun k' => if k' = k then some ⟨v, t⟩ else st.ent k'⟩ ∧
+theorem condWrite_wrote {merge : Option α → α → Option α} {st st' : Store α} {k : Key} {idx : Nat}
+    {out : α} (h : condWrite merge st k idx out = (st', .wrote)) :
+    Enabled st k idx ∧ ∃ v t c', st' = ⟨st.kind, c', fun k' => if k' = k then some ⟨v, t⟩ else st.ent k'⟩ ∧
       (st.kind = .consul → t = st.cur + 1 ∧ c' = st.cur + 1) ∧
       (st.kind ≠ .consul → t = st.ver k + 1 ∧ c' = st.cur) ∧
       (st.kind ≠ .ml → v = out) ∧ (st.kind = .ml → merge (st.val k) out = some v) := by
@@ -88,18 +88,15 @@ theorem condWrite_wrote {strict : Bool} {merge : Option α → α → Option α}
       next r hr =>
         simp only [Prod.mk.injEq, and_true] at h
         refine ⟨?_, r, st.ver k + 1, st.cur, ?_, ?_, ?_, ?_, ?_⟩
-        · simp only [Enabled, hk]
-          cases strict with
-          | false => simp only [Bool.false_eq_true, false_or, not_and, Decidable.not_not] at hcond; simp only [true_and]; omega
-          | true => simp only [true_or, true_and, Decidable.not_not] at hcond; exact Or.inr hcond
+        · simp only [Enabled, hk]; simpa using hcond
         · rw [← h]; simp [Store.set, hk]
         · intro hc; rw [hk] at hc; cases hc
         · intro _; exact ⟨rfl, rfl⟩
         · intro hne; exact absurd hk hne
         · intro _; exact hr
 
-theorem condWrite_outcome {strict : Bool} {merge : Option α → α → Option α} {st st' : Store α} {k : Key} {idx : Nat}
-    {out : α} {oc : Outcome} (h : condWrite strict merge st k idx out = (st', oc)) :
+theorem condWrite_outcome {merge : Option α → α → Option α} {st st' : Store α} {k : Key} {idx : Nat}
+    {out : α} {oc : Outcome} (h : condWrite merge st k idx out = (st', oc)) :
     oc = .wrote ∨ oc = .conflict ∨ oc = .nochange := by
   unfold condWrite at h
   repeat' split at h
@@ -192,11 +189,10 @@ theorem phaseOK_write {st : Store α} {k : Key} {v : α} {t c' : Nat} {p : Phase
         exact ⟨by omega, fun h => by omega⟩
     · simp only [hk, if_false]; exact ⟨h1, h2⟩
 
-/-- If the conditional write of a holder succeeds, the value it applied `f` to is the stored value —
-except for memberlist attempts that read an absent key (token 0), which are never rejected. -/
-theorem input_current {strict : Bool} {st : Store α} {cl : Call α} {cid att idx : Nat} {inp : Option α}
-    (hwf : StoreWF st) (hp : PhaseOK st (.holding cl cid att idx inp)) (hen : Enabled strict st cl.key idx)
-    (hg : st.kind = .ml → strict = false → idx = 0 → st.val cl.key = none) : inp = st.val cl.key := by
+/-- If the conditional write of a holder succeeds, the value it applied `f` to is the stored value. -/
+theorem input_current {st : Store α} {cl : Call α} {cid att idx : Nat} {inp : Option α}
+    (hwf : StoreWF st) (hp : PhaseOK st (.holding cl cid att idx inp)) (hen : Enabled st cl.key idx)
+    : inp = st.val cl.key := by
   obtain ⟨h1, h2⟩ := hp
   cases hent : st.ent cl.key with
   | none => rw [val_of_none hent]; exact (h1 hent).1
@@ -208,10 +204,7 @@ theorem input_current {strict : Bool} {st : Store α} {cl : Call α} {cid att id
     split at hen
     · exact hen e hent
     · rw [ver_of_some hent] at hen; exact hen
-    next hk =>
-      rcases hen with ⟨hs, h0⟩ | hv
-      · have := hg hk hs h0; rw [val_of_some hent] at this; cases this
-      · rw [ver_of_some hent] at hv; exact hv
+    · rw [ver_of_some hent] at hen; exact hen
 
 /-! ### the steps -/
 
@@ -242,7 +235,7 @@ theorem commit_spec (cfg : Cfg α) (s : Sys α) (c : Nat) (cl : Call α) (cid at
       r.caller = c ∧ r.cid = cid ∧ r.key = cl.key ∧ r.idx = idx ∧ r.inp = inp ∧ r.before = s.pri.val cl.key ∧
       ((r.outcome = .wrote ∧
           (∃ out retry, cl.f att inp = .write out retry ∧ r.out = some out ∧
-            condWrite cfg.mlStrict cfg.merge s.pri cl.key idx out = ((commit cfg s c cl cid att idx inp).pri, .wrote)) ∧
+            condWrite cfg.merge s.pri cl.key idx out = ((commit cfg s c cl cid att idx inp).pri, .wrote)) ∧
           r.after = (commit cfg s c cl cid att idx inp).pri.val cl.key ∧ r.done = some true ∧
           ((commit cfg s c cl cid att idx inp).ph c = .idle ∨
             ∃ v, (commit cfg s c cl cid att idx inp).ph c = .mreading cl.key v 0 0)) ∨
@@ -329,21 +322,16 @@ def ChainR (init : Option α) : List (Rec α) → Option α → Prop
   | [], fin => fin = init
   | r :: older, fin => fin = r.after ∧ ChainR init older r.inp
 
-/-- memberlist only: no successful write of an attempt that had read an absent key (version 0)
-landed on a key that existed by then. Vacuous for consul and etcd. -/
-def Guard (strict : Bool) (kind : Backend) (log : List (Rec α)) : Prop :=
-  kind = .ml → strict = false → ∀ r ∈ log, r.outcome = .wrote → r.idx = 0 → r.before = none
-
-structure Inv (strict : Bool) (init : Key → Option α) (kind : Backend) (s : Sys α) : Prop where
+structure Inv (init : Key → Option α) (kind : Backend) (s : Sys α) : Prop where
   kind_eq : s.pri.kind = kind
   wf : StoreWF s.pri
   phases : ∀ c, PhaseOK s.pri (s.ph c)
-  chain : Guard strict kind s.log → ∀ k, ChainR (init k) (writesOn k s.log) (s.pri.val k)
+  chain : ∀ k, ChainR (init k) (writesOn k s.log) (s.pri.val k)
   /-- every successful write was applied to the value that was stored at the moment of the write -/
-  current : Guard strict kind s.log → ∀ r ∈ s.log, r.outcome = .wrote → r.inp = r.before
+  current : ∀ r ∈ s.log, r.outcome = .wrote → r.inp = r.before
 
-theorem inv_same {strict : Bool} {init : Key → Option α} {kind : Backend} {s s' : Sys α} (h : Inv strict init kind s)
-    (hpri : s'.pri = s.pri) (hlog : s'.log = s.log) (hph : ∀ c, PhaseOK s.pri (s'.ph c)) : Inv strict init kind s' := by
+theorem inv_same {init : Key → Option α} {kind : Backend} {s s' : Sys α} (h : Inv init kind s)
+    (hpri : s'.pri = s.pri) (hlog : s'.log = s.log) (hph : ∀ c, PhaseOK s.pri (s'.ph c)) : Inv init kind s' := by
   refine ⟨by rw [hpri]; exact h.kind_eq, by rw [hpri]; exact h.wf, by rw [hpri]; exact hph, ?_, ?_⟩
   · rw [hpri, hlog]; exact h.chain
   · rw [hlog]; exact h.current
@@ -360,12 +348,8 @@ theorem writesOn_cons_self {k : Key} {r : Rec α} {log : List (Rec α)}
   rw [List.filter_cons_of_pos]
   simpa using h
 
-theorem guard_tail {strict : Bool} {kind : Backend} {r : Rec α} {log : List (Rec α)}
-    (h : Guard strict kind (r :: log)) : Guard strict kind log :=
-  fun hk hs r' hr' => h hk hs r' (List.mem_cons_of_mem _ hr')
-
-theorem inv_next {init : Key → Option α} {kind : Backend} (cfg : Cfg α) {s : Sys α} (h : Inv cfg.mlStrict init kind s)
-    (ev : Ev α) : Inv cfg.mlStrict init kind (next cfg s ev) := by
+theorem inv_next {init : Key → Option α} {kind : Backend} (cfg : Cfg α) {s : Sys α} (h : Inv init kind s)
+    (ev : Ev α) : Inv init kind (next cfg s ev) := by
   cases ev with
   | begin c cl =>
     simp only [next]
@@ -408,12 +392,7 @@ theorem inv_next {init : Key → Option α} {kind : Backend} (cfg : Cfg α) {s :
       · -- wrote
         obtain ⟨hen, v, t, c', hst, hcons, hncons, _, _⟩ := condWrite_wrote hcw
         obtain ⟨hfresh, _, _⟩ := write_fresh h.wf hcons hncons
-        have hcur : Guard cfg.mlStrict kind (r :: s.log) → inp = s.pri.val cl.key := by
-          intro hg
-          apply input_current h.wf hp hen
-          intro hml hs hi0
-          have := hg (h.kind_eq ▸ hml) hs r (List.mem_cons_self ..) hoc (hidx.trans hi0)
-          rw [hbefore] at this; exact this
+        have hcur : inp = s.pri.val cl.key := input_current h.wf hp hen
         refine ⟨by rw [hst]; exact h.kind_eq, by rw [hst]; exact wf_write h.wf hcons hncons, ?_, ?_, ?_⟩
         · intro c'
           rw [hst]
@@ -421,23 +400,22 @@ theorem inv_next {init : Key → Option α} {kind : Backend} (cfg : Cfg α) {s :
           · subst hc
             rcases hphc with hi | ⟨v', hi⟩ <;> rw [hi] <;> trivial
           · rw [hoth c' hc]; exact phaseOK_write hfresh (h.phases c')
-        · intro hg k
-          rw [hlog] at hg ⊢
-          have hg0 := guard_tail hg
-          have hchain := h.chain hg0
+        · intro k
+          rw [hlog]
+          have hchain := h.chain
           by_cases hk : cl.key = k
           · rw [writesOn_cons_self ⟨hkey.trans hk, hoc⟩]
             refine ⟨by rw [hafter, hk], ?_⟩
-            rw [hinp, hcur hg, hk]; exact hchain k
+            rw [hinp, hcur, hk]; exact hchain k
           · rw [writesOn_cons_other (fun hh => hk (hkey.symm.trans hh.1))]
             have : (commit cfg s c cl cid att idx inp).pri.val k = s.pri.val k := by
               rw [hst]; simp [Store.val, Ne.symm hk]
             rw [this]; exact hchain k
-        · intro hg r' hr'
-          rw [hlog] at hg hr'
+        · intro r' hr'
+          rw [hlog] at hr'
           rcases List.mem_cons.1 hr' with rfl | hr'
-          · intro _; rw [hinp, hbefore]; exact hcur hg
-          · exact h.current (guard_tail hg) r' hr'
+          · intro _; rw [hinp, hbefore]; exact hcur
+          · exact h.current r' hr'
       · -- nothing written
         refine ⟨by rw [hpri]; exact h.kind_eq, by rw [hpri]; exact h.wf, ?_, ?_, ?_⟩
         · intro c'
@@ -456,15 +434,15 @@ theorem inv_next {init : Key → Option α} {kind : Backend} (cfg : Cfg α) {s :
                 · exact (h2 e he).1
                 · exact Nat.zero_le _
           · rw [hoth c' hc]; exact h.phases c'
-        · intro hg k
-          rw [hlog] at hg ⊢
+        · intro k
+          rw [hlog]
           rw [writesOn_cons_other (fun hh => hoc hh.2), hpri]
-          exact h.chain (guard_tail hg) k
-        · intro hg r' hr'
-          rw [hlog] at hg hr'
+          exact h.chain k
+        · intro r' hr'
+          rw [hlog] at hr'
           rcases List.mem_cons.1 hr' with rfl | hr'
           · intro hw; exact absurd hw hoc
-          · exact h.current (guard_tail hg) r' hr'
+          · exact h.current r' hr'
     next k v att idx hph =>
       refine inv_same h rfl rfl ?_
       intro c'
@@ -481,7 +459,7 @@ theorem inv_next {init : Key → Option α} {kind : Backend} (cfg : Cfg α) {s :
       · rw [hoth c' hc]; exact h.phases c'
 
 theorem inv_run {init : Key → Option α} {kind : Backend} (cfg : Cfg α) (evs : List (Ev α)) :
-    ∀ {s : Sys α}, Inv cfg.mlStrict init kind s → Inv cfg.mlStrict init kind (run cfg s evs) := by
+    ∀ {s : Sys α}, Inv init kind s → Inv init kind (run cfg s evs) := by
   induction evs with
   | nil => intro s h; exact h
   | cons ev evs ih => intro s h; exact ih (inv_next cfg h ev)
@@ -492,11 +470,11 @@ structure Quiescent (s : Sys α) : Prop where
   idle : ∀ c, s.ph c = .idle
   log : s.log = []
 
-theorem inv_init {strict : Bool} {s0 : Sys α} (h : Quiescent s0) : Inv strict (fun k => s0.pri.val k) s0.pri.kind s0 := by
+theorem inv_init {s0 : Sys α} (h : Quiescent s0) : Inv (fun k => s0.pri.val k) s0.pri.kind s0 := by
   refine ⟨rfl, h.wf, ?_, ?_, ?_⟩
   · intro c; rw [h.idle c]; trivial
-  · intro _ k; rw [h.log]; exact rfl
-  · intro _ r hr; rw [h.log] at hr; cases hr
+  · intro k; rw [h.log]; exact rfl
+  · intro r hr; rw [h.log] at hr; cases hr
 
 theorem wf_empty (kind : Backend) : StoreWF (Store.empty kind : Store α) := by
   intro k e he; simp [Store.empty] at he
@@ -504,18 +482,16 @@ theorem wf_empty (kind : Backend) : StoreWF (Store.empty kind : Store α) := by
 theorem quiescent_init (pri sec : Store α) (h : StoreWF pri) : Quiescent (Sys.init pri sec) :=
   ⟨h, fun _ => rfl, rfl⟩
 
-/-- The chain property (newest-first form) for every backend, under the memberlist guard. -/
-theorem chain_guarded (cfg : Cfg α) (s0 : Sys α) (h0 : Quiescent s0) (evs : List (Ev α))
-    (hg : Guard cfg.mlStrict s0.pri.kind (run cfg s0 evs).log) (k : Key) :
+/-- The chain property (newest-first form) for every backend. -/
+theorem chain_newest_first (cfg : Cfg α) (s0 : Sys α) (h0 : Quiescent s0) (evs : List (Ev α)) (k : Key) :
     ChainR (s0.pri.val k) (writesOn k (run cfg s0 evs).log) ((run cfg s0 evs).pri.val k) :=
-  (inv_run cfg evs (inv_init h0)).chain hg k
+  (inv_run cfg evs (inv_init h0)).chain k
 
 /-- No lost update, stated per write: every successful write was applied to exactly the value that was
 stored at the moment it was written. -/
 theorem wrote_input_current (cfg : Cfg α) (s0 : Sys α) (h0 : Quiescent s0) (evs : List (Ev α))
-    (hg : Guard cfg.mlStrict s0.pri.kind (run cfg s0 evs).log) (r : Rec α) (hr : r ∈ (run cfg s0 evs).log)
-    (hw : r.outcome = .wrote) : r.inp = r.before :=
-  (inv_run cfg evs (inv_init h0)).current hg r hr hw
+    (r : Rec α) (hr : r ∈ (run cfg s0 evs).log) (hw : r.outcome = .wrote) : r.inp = r.before :=
+  (inv_run cfg evs (inv_init h0)).current r hr hw
 
 /-! ### chronological presentation of the chain -/
 
@@ -554,11 +530,10 @@ theorem successful_eq (k : Key) (log : List (Rec α)) :
   unfold successful writesOn
   rw [List.filter_reverse]
 
-theorem chain_chrono (cfg : Cfg α) (s0 : Sys α) (h0 : Quiescent s0) (evs : List (Ev α))
-    (hg : Guard cfg.mlStrict s0.pri.kind (run cfg s0 evs).log) (k : Key) :
+theorem chain_chrono (cfg : Cfg α) (s0 : Sys α) (h0 : Quiescent s0) (evs : List (Ev α)) (k : Key) :
     Chain (s0.pri.val k) (successful k (run cfg s0 evs).log) ((run cfg s0 evs).pri.val k) := by
   rw [successful_eq]
-  exact chain_of_chainR _ _ _ (chain_guarded cfg s0 h0 evs hg k)
+  exact chain_of_chainR _ _ _ (chain_newest_first cfg s0 h0 evs k)
 
 /-! ### per-record facts: what a record says about the step that produced it -/
 
@@ -900,7 +875,7 @@ theorem mirror_copies_value (cfg : Cfg α) (s : Sys α) (c : Nat) (k : Key) (v :
   simp only [next, h2, mcommit]
   have hsec : (s.setPh c (.mholding k v 0 (readIdx s.sec k 0) (s.sec.val k))).sec = s.sec := rfl
   rw [hsec]
-  have hw : ∃ st, condWrite cfg.mlStrict cfg.merge s.sec k (readIdx s.sec k 0) v = (st, .wrote) ∧ st.val k = some v := by
+  have hw : ∃ st, condWrite cfg.merge s.sec k (readIdx s.sec k 0) v = (st, .wrote) ∧ st.val k = some v := by
     unfold condWrite readIdx
     cases hkind : s.sec.kind with
     | ml => exact absurd hkind hk
@@ -973,5 +948,13 @@ theorem ml_wrote_leaves_merge (cfg : Cfg α) (s0 : Sys α) (h0 : Quiescent s0) (
   have hf := run_recfacts cfg evs s0 (by rw [h0.log]; intro r hr; cases hr) r hr
   obtain ⟨hd, out, ho, _, ha⟩ := hf.wrote hw
   exact ⟨hd, out, ho, ha hk⟩
+
+theorem ml_no_lost_update (cfg : Cfg α) (s0 : Sys α) (h0 : Quiescent s0) (hk : s0.pri.kind = .ml)
+    (evs : List (Ev α)) (r : Rec α) (hr : r ∈ (run cfg s0 evs).log) (hw : r.outcome = .wrote) :
+    r.inp = r.before ∧ ∀ out, r.out = some out → cfg.merge r.inp out = some out → r.after = some out := by
+  have h1 := wrote_input_current cfg s0 h0 evs r hr hw
+  obtain ⟨_, out, ho, ha, _⟩ := ml_wrote_leaves_merge cfg s0 h0 hk evs r hr hw
+  refine ⟨h1, fun out' ho' hm => ?_⟩
+  rw [ho] at ho'; cases ho'; rw [ha, ← h1, hm]
 
 end PfC07
